@@ -37,11 +37,14 @@ def export_vecs(ctx, m):
 def build_population(rng, absvecs, share_vectors=False):
     """abstract solutions -> real Individuals with concretised costs_signed; returns (individuals, projected solutions)."""
     Individual = absx.individual_class(rng)
+    mixed_classes = rng.random() < 0.3       # a population may mix the framework's design classes (archived leaders next to fresh offspring)
     m = len(absvecs[0]["c"])
     maps = [absx.monotone_map(rng, 3) for _ in range(m)]
     mstyle = rng.randrange(3)
     inds = []
     for k, v in enumerate(absvecs):
+        if mixed_classes:
+            Individual = absx.individual_class(rng)
         ind = Individual([float(k if not share_vectors else rng.randrange(2)), 1.0])
         ind.costs_signed = [maps[i][v["c"][i]] for i in range(m)] + [absx.concrete_marker(rng, v["m"], mstyle)]
         ind.costs = list(ind.costs_signed[:-1])
